@@ -288,7 +288,10 @@ class JointScope(Scope):
         return hash(self._lookup)
 
     def __eq__(self, other: 'JointScope'):
-        return self._lookup == other._lookup
+        try:
+            return self._lookup == other._lookup
+        except AttributeError:
+            return NotImplemented
 
     def change_constants(self, new_constants: Mapping[str, Number]) -> 'JointScope':
         # TODO: Inefficient if the same scope is present multiple times
